@@ -1168,14 +1168,10 @@ impl<'a> CompilerState<'a> {
                                 set_const_ex = true;
                             }
                             Rule::bank => {
-                                memory = VariableMemory::ROM(
-                                    p.into_inner()
-                                        .next()
-                                        .unwrap()
-                                        .as_str()
-                                        .parse::<u32>()
-                                        .unwrap(),
-                                )
+                                let px = p.into_inner().next().unwrap();
+                                memory = VariableMemory::ROM(px.as_str().parse::<u32>().map_err(
+                                    |_| self.syntax_error("Bank number out of range", px.as_span().start()),
+                                )?)
                             }
                             Rule::superchip => memory = VariableMemory::Superchip,
                             Rule::display => memory = VariableMemory::Display,
@@ -1965,7 +1961,7 @@ impl<'a> CompilerState<'a> {
                         .unwrap()
                         .as_str()
                         .parse::<u32>()
-                        .unwrap();
+                        .map_err(|_| self.syntax_error("Bank number out of range", start))?;
                     if bank != 0 && inline {
                         return Err(
                             self.syntax_error("Bank spec and inlining are incompatible", start)
